@@ -27,8 +27,7 @@ def case_of_viol(v):
 
 def build_debug_harness():
     """second harness binary with the interpreter's own instruction trace compiled in (tags verif,gojq_debug):
-    gives an instruction-fetch counter that is independent of ctx.Done()"""
-    h = os.path.join(V.ROOT, "harness")
+    gives the pc / an instruction-fetch counter independent of ctx.Done()"""
     return V.build_harness("c07", tags="verif gojq_debug", out="harness-c07dbg")
 
 
